@@ -271,7 +271,12 @@ impl Model {
     /// Err(()) undetermined.
     pub fn append_expect(&self, spec: &FrameSpec) -> Result<bool, ()> {
         if spec.topic == "xs.context" {
+            // (a registration is kept forever whatever TTL was asked for)
             return Ok(spec.ctx == ZERO);
+        }
+        if spec.ttl == Some(WTtl::Head(0)) {
+            // `head:0` is no TTL: refused at every boundary
+            return Ok(false);
         }
         match self.usable(spec.ctx) {
             Some(false) => return Ok(false),
